@@ -580,19 +580,7 @@ func sortedKeys(m map[string]string) []string {
 func (d *Decls) errAxioms() string {
 	var b strings.Builder
 	_, hasWraps := d.set["errwraps"]
-	if !hasWraps {
-		if _, hasIs0 := d.set["fn!errors.Is"]; hasIs0 {
-			return "(assert (forall ((e Int)) (! (fn!errors.Is e e) :pattern ((fn!errors.Is e e)))))\n"
-		}
-		return ""
-	}
-	var errs []string
-	for name := range d.set {
-		if strings.HasPrefix(name, "err!") {
-			errs = append(errs, name)
-		}
-	}
-	sort.Strings(errs)
+	_, hasIs := d.set["fn!errors.Is"]
 	var asFns []string
 	for name := range d.set {
 		n := strings.Trim(name, "|")
@@ -601,10 +589,54 @@ func (d *Decls) errAxioms() string {
 		}
 	}
 	sort.Strings(asFns)
-	_, hasIs := d.set["fn!errors.Is"]
 	if hasIs {
 		b.WriteString("(assert (forall ((e Int)) (! (fn!errors.Is e e) :pattern ((fn!errors.Is e e)))))\n")
+		// errors.Is(nil, t) only for t == nil
+		b.WriteString("(assert (forall ((t Int)) (! (= (fn!errors.Is 0 t) (= t 0)) :pattern ((fn!errors.Is 0 t)))))\n")
 	}
+	for _, f := range asFns {
+		// errors.As(nil, &target) is false
+		b.WriteString(fmt.Sprintf("(assert (not (%s 0)))\n", f))
+	}
+	// package-level sentinel errors of the standard library (context.Canceled, io.EOF, ...): they wrap nothing, so
+	// errors.Is(s, t) holds only for t == s, and they are never instances of a type declared in this repository
+	var sents []string
+	for name := range d.set {
+		n := strings.Trim(name, "|")
+		if strings.HasPrefix(n, "sentinel!") {
+			// sentinel!<package path>.<Name>: standard-library packages have no dot in the first path segment
+			full := strings.TrimPrefix(n, "sentinel!")
+			pkgPath := full
+			if k := strings.LastIndex(full, "."); k >= 0 {
+				pkgPath = full[:k]
+			}
+			if !strings.Contains(strings.SplitN(pkgPath, "/", 2)[0], ".") {
+				sents = append(sents, name)
+			}
+		}
+	}
+	sort.Strings(sents)
+	for _, sn := range sents {
+		if hasIs {
+			b.WriteString(fmt.Sprintf("(assert (forall ((t Int)) (! (= (fn!errors.Is %s t) (= %s t)) :pattern ((fn!errors.Is %s t)))))\n", sn, sn, sn))
+		}
+		for _, f := range asFns {
+			if strings.Contains(f, "fn!errors.As!*github.com/thushan/olla/") {
+				b.WriteString(fmt.Sprintf("(assert (not (%s %s)))\n", f, sn))
+			}
+		}
+	}
+	if !hasWraps {
+		return b.String()
+	}
+	// errors created by fmt.Errorf / errors.New in this unit: errors.Is / errors.As go through the wrapped error only
+	var errs []string
+	for name := range d.set {
+		if strings.HasPrefix(name, "err!") {
+			errs = append(errs, name)
+		}
+	}
+	sort.Strings(errs)
 	for _, e := range errs {
 		if hasIs {
 			b.WriteString(fmt.Sprintf("(assert (forall ((t Int)) (! (= (fn!errors.Is %s t) (or (= %s t) (and (distinct (errwraps %s) 0) (fn!errors.Is (errwraps %s) t)))) :pattern ((fn!errors.Is %s t)))))\n", e, e, e, e, e))
